@@ -76,7 +76,7 @@ Definition t_sqwnorm (a : vec) : K F := t_inner a a.
 Definition t_wnorm (a : vec) : K F := ksqrt F (t_sqwnorm a).
 
 (* setRandom on the group: Tangent::Random().exp() *)
-Definition g_random (u : vec) : vec := g_exp G (g_trandom G u).
+Definition g_random (u : vec) : vec := g_grandom G u.          (* LieGroup::Random() *)
 
 End Generic.
 
